@@ -358,6 +358,22 @@ func main() {
 		}
 		packages++
 	}
+	// shapes that matter only here: a dependency cycle through two declarations (the ordering of
+	// declarations must terminate), and inputs that reach the rarely used reporters
+	for _, it := range [][2]string{
+		{"mutual", "package mutual\n\nfunc IsEven(n uint64) bool {\n\tif n == 0 {\n\t\treturn true\n\t}\n\treturn IsOdd(n - 1)\n}\n\nfunc IsOdd(n uint64) bool {\n\tif n == 0 {\n\t\treturn false\n\t}\n\treturn IsEven(n - 1)\n}\n"},
+		{"mutual3", "package mutual3\n\ntype T struct {\n\tx uint64\n}\n\nfunc (t *T) A(n uint64) uint64 {\n\tif n == 0 {\n\t\treturn t.x\n\t}\n\treturn B(t, n-1)\n}\n\nfunc B(t *T, n uint64) uint64 {\n\treturn C(t, n)\n}\n\nfunc C(t *T, n uint64) uint64 {\n\treturn t.A(n)\n}\n"},
+		{"grouptypes", "package grouptypes\n\ntype (\n\tKey   uint64\n\tValue uint64\n)\n\nfunc F(k Key) Value {\n\treturn Value(k)\n}\n"},
+		{"gotoloop", "package gotoloop\n\nfunc F(n uint64) uint64 {\n\tvar s uint64 = 0\n\tfor i := uint64(0); i < n; i++ {\n\t\ts = s + i\n\t\tif s > 10 {\n\t\t\tgoto done\n\t\t}\n\t}\ndone:\n\treturn s\n}\n"},
+		{"gototail", "package gototail\n\nfunc F(n uint64) uint64 {\n\tvar s uint64 = 0\nagain:\n\tfor i := uint64(0); i < n; i++ {\n\t\ts = s + i\n\t\tgoto again\n\t}\n\treturn s\n}\n"},
+		{"fallthru", "package fallthru\n\nfunc F(n uint64) uint64 {\n\tfor i := uint64(0); i < n; i++ {\n\t\tswitch i {\n\t\tcase 1:\n\t\t\tfallthrough\n\t\tdefault:\n\t\t}\n\t}\n\treturn n\n}\n"},
+	} {
+		dir := filepath.Join(mod, "x", it[0])
+		os.MkdirAll(dir, 0o755)
+		os.WriteFile(filepath.Join(dir, "p.go"), []byte(it[1]), 0o644)
+		check(w, *goose, mod, "x/"+it[0], outRoot, v)
+		packages++
+	}
 	// mutants of the shipped examples
 	examples := []string{"unittest", "semantics", "append_log", "simpledb", "wal", "logging2", "rfc1813", "comments", "async"}
 	mutants, discarded := 0, 0
